@@ -90,6 +90,12 @@ fn seg(s: Seg, m: &[u8], _q: usize) -> Vec<u8> {
                     b[30] = b[30].wrapping_add(1);
                 }
                 b.to_vec()
+            } else if m[1..30].iter().all(|b| *b == 0) && (m[30] == 1 || (m[30] == 0 && m[31] == 0)) {
+                // canonical value whose FIRST octet deviates (e.g. a flipped top bit): the deviation is
+                // carried over literally onto the real encoding of the same value
+                let mut b = if m[30] == 1 { Scalar::from(m[31] as u64 + 1).to_be_bytes().to_vec() } else { vec![0u8; 32] };
+                b[0] ^= m[0];
+                b
             } else {
                 vec![0xFF; 32]
             }
